@@ -308,4 +308,73 @@ theorem iterAll_eq_contents {n : Net} (hc : n.Canon) : n.iterAll = n.contents :=
   rw [AllIt.drain_eq_items _ _ (iterStart_ok hc), iterStart_items]
   rw [iterStart_items, len_eq_contents_length]; omega
 
+/-! ### single steps: one operation on one representation -/
+
+def flowOf (e : Env) : Nat × Nat := (e.src, e.dst)
+
+theorem queue_send (flows : List ((Nat × Nat) × List Nat)) (e : Env) (f : Nat × Nat) :
+    ((Net.ord flows).send e).queue f =
+      if f = flowOf e then (Net.ord flows).queue f ++ [e.msg] else (Net.ord flows).queue f := by
+  simp only [Net.send, Net.queue, alookup_ainsert, flowOf]
+  by_cases h : f = (e.src, e.dst) <;> simp [h]
+
+theorem ord_remove {flows : List ((Nat × Nat) × List Nat)} {e : Env} {n1 : Net}
+    (hc : (Net.ord flows).Canon) (hv : e ∈ (Net.ord flows).iterDeliverable)
+    (h : (Net.ord flows).removeOne e = some n1) :
+    n1.isOrdered = true ∧ (Net.ord flows).queue (flowOf e) = e.msg :: n1.queue (flowOf e) ∧
+      ∀ f, f ≠ flowOf e → n1.queue f = (Net.ord flows).queue f := by
+  obtain ⟨q, hq, hh⟩ := (mem_iterDeliverable hc e).1 hv
+  obtain ⟨t, rfl⟩ := List.head?_eq_some_iff.1 hh
+  simp only [Net.removeOne, hq, List.idxOf?_cons, beq_self_eq_true, if_true] at h
+  by_cases hlen : (e.msg :: t).length > 1
+  · simp only [hlen, if_true, Option.some.injEq] at h
+    subst h
+    refine ⟨rfl, ?_, ?_⟩
+    · simp [Net.queue, flowOf, alookup_aset, hq]
+    · intro f hf
+      simp only [flowOf] at hf
+      simp [Net.queue, alookup_aset, hf]
+  · simp only [hlen, if_false, Option.some.injEq] at h
+    subst h
+    have ht : t = [] := by
+      cases t with
+      | nil => rfl
+      | cons a b => simp at hlen
+    subst ht
+    refine ⟨rfl, ?_, ?_⟩
+    · simp [Net.queue, flowOf, alookup_aremove, hq]
+    · intro f hf
+      simp only [flowOf] at hf
+      simp [Net.queue, alookup_aremove, hf]
+
+theorem count_send (ms : List (Env × Nat)) (e' e : Env) :
+    ((Net.nondup ms).send e').count e = (Net.nondup ms).count e + if e = e' then 1 else 0 := by
+  simp only [Net.send, Net.count, alookup_ainsert]
+  by_cases h : e = e' <;> simp [h]
+
+theorem nondup_remove {ms : List (Env × Nat)} {e' : Env} {n1 : Net}
+    (h : (Net.nondup ms).removeOne e' = some n1) (e : Env) :
+    (∃ ms1, n1 = Net.nondup ms1) ∧ (Net.nondup ms).count e = n1.count e + if e = e' then 1 else 0 := by
+  simp only [Net.removeOne] at h
+  cases hl : alookup e' ms with
+  | none => simp [hl] at h
+  | some c =>
+    simp only [hl] at h
+    by_cases h0 : c = 0
+    · simp [h0] at h
+    · by_cases h1 : c = 1
+      · simp [h1] at h; subst h
+        refine ⟨⟨_, rfl⟩, ?_⟩
+        simp only [Net.count, alookup_aremove]
+        by_cases he : e = e'
+        · subst he; simp [hl, h1]
+        · simp [he]
+      · simp [h0, h1] at h; subst h
+        refine ⟨⟨_, rfl⟩, ?_⟩
+        simp only [Net.count, alookup_aset]
+        by_cases he : e = e'
+        · subst he; simp [hl]; omega
+        · simp [he]
+
+
 end SR.Actor
